@@ -13,6 +13,8 @@ pub struct WorkerHandle {
     pub max_job_wall_us: u64,
     pub respawns: u64,
     budget_ms: u64,
+    /// re-run a timed-out job once, alone, with ten times the budget (C06 only)
+    pub retry: bool,
 }
 
 enum Attempt {
@@ -57,7 +59,7 @@ impl WorkerHandle {
         let budget_ms = std::env::var("VERIF_CPU_BUDGET_MS")
             .ok()
             .and_then(|s| s.parse().ok())
-            .unwrap_or(2000);
+            .unwrap_or(1500);
         WorkerHandle {
             child,
             stdin,
@@ -66,6 +68,7 @@ impl WorkerHandle {
             max_job_wall_us: 0,
             respawns: 0,
             budget_ms,
+            retry: false,
         }
     }
 
@@ -150,6 +153,7 @@ impl WorkerHandle {
         match self.attempt(&bytes, self.budget_ms) {
             Attempt::Done(o) => JobResult::Done(o),
             Attempt::Died(s) => JobResult::Died(s),
+            Attempt::TimedOut if !self.retry => JobResult::Hang,
             Attempt::TimedOut => {
                 // once more, alone in a fresh worker, with ten times the budget
                 match self.attempt(&bytes, self.budget_ms * 10) {
